@@ -85,6 +85,32 @@ ROLE_MODULES = ("_storage",)  # functions there carry roles (push/pop/get/set, f
 # rules recognise at call sites and follow through delegates themselves: never inlined
 
 
+def _resolve_for_inline(model, caller, call):
+    """model.resolve_call, plus: `<chain>.name(..)` where exactly one class of the package defines a method `name`
+    (and that class is a plain class) resolves to that method whatever the static type of the chain is."""
+    t = model.resolve_call(caller, call)
+    if t.kind == "func":
+        return t
+    if isinstance(call.func, ast.Attribute) and not call.func.attr.startswith("__"):
+        owners = [c for c in model.classes.values() if call.func.attr in c.methods and not c.module.short.startswith("_typeguard")]
+        if len(owners) == 1 and _unique_method(model, owners[0].methods[call.func.attr]):
+            class R:
+                pass
+
+            r = R()
+            r.kind, r.target, r.recv = "func", owners[0].methods[call.func.attr], call.func.value
+            return r
+    return t
+
+
+def _unique_method(model, h: FuncInfo) -> bool:
+    owners = [c for c in model.classes.values() if h.name in c.methods]
+    if len(owners) != 1 or owners[0] is not h.cls:
+        return False
+    # external bases (ast.NodeTransformer, SourceFileLoader, ...) may call the method by protocol: only plain classes
+    return all(norm_base(b) in ("object",) for b in h.cls.bases) and not h.cls.node.keywords
+
+
 def _inlinable(model, h: FuncInfo, caller: Optional[FuncInfo] = None) -> bool:
     if h.module.short in ROLE_MODULES:
         # the storage module's API functions carry roles that are recognised at their call sites in other modules:
@@ -100,7 +126,11 @@ def _inlinable(model, h: FuncInfo, caller: Optional[FuncInfo] = None) -> bool:
         if len(same) != 1 or rebound:
             return False
     if h.cls is not None and (not h.name.startswith("_") or h.name.startswith("__")):
-        return False  # public / dunder methods may override or implement a protocol of a base class: dispatch, not a helper
+        # public / dunder methods may override or implement a protocol of a base class: dispatch, not a helper -- unless the
+        # (non-dunder) name is defined by exactly one class of the package, whose bases are not package classes with such a
+        # method and which is not subclassed with an override: then a call of it can only mean this body
+        if h.name.startswith("__") or not (_unique_method(model, h) or _decorator_kind(h) in ("class", "static")):
+            return False  # (class / static methods: _bind only accepts them when they are called on the class by name)
     n = h.node
     if not isinstance(n, ast.FunctionDef):
         return False
@@ -275,15 +305,28 @@ def _bind(model, caller: FuncInfo, call: ast.Call, h: FuncInfo, targets=()):
             return None
         recv = call.func.value
         # cls.h(...) / self.h(...) from a method of the same class only: calls through other objects keep
-        # their abstraction (instance typing resolves them); Class.h(obj, ...) is not handled
-        if not isinstance(recv, ast.Name):
-            return None
+        # their abstraction (instance typing resolves them); Class.h(obj, ...) is not handled -- except for a method
+        # whose name only one class of the package defines (`self._typechecker.get_transformer()`): the receiver chain
+        # stands for `self` in the body
         own = caller
         while isinstance(own, FuncInfo) and own.cls is None:
             own = own.parent
-        if not (isinstance(own, FuncInfo) and own.params and own.params[0] == recv.id and own.cls is not None
-                and h.cls in [k for k in model.mro(own.cls)]):
+        same_obj = isinstance(recv, ast.Name) and isinstance(own, FuncInfo) and own.params and own.params[0] == recv.id and own.cls is not None \
+            and h.cls in [k for k in model.mro(own.cls)]
+        by_class_name = False
+        if kind == "class" and isinstance(recv, ast.Name):
+            b_ = model.resolve_name(caller, recv.id)
+            by_class_name = b_.kind == "class" and b_.target is h.cls  # `Finder.make(..)`: no dispatch, `cls` is that class
+        if not h.name.startswith("_") and not (by_class_name or _unique_method(model, h)):
             return None
+        if not same_obj and not by_class_name:
+            if not _unique_method(model, h):
+                return None
+            # the body must use its receiver only through attribute reads / method calls on it (no rebinding, no escape)
+            sp = params[0]
+            for x in ast.walk(h.node):
+                if isinstance(x, ast.Name) and x.id == sp and isinstance(x.ctx, (ast.Store, ast.Del)):
+                    return None
         bound[params[0]] = recv
         params = params[1:]
     if len(args) > len(params):
@@ -319,7 +362,11 @@ def _bind(model, caller: FuncInfo, call: ast.Call, h: FuncInfo, targets=()):
     for p, v in bound.items():
         if isinstance(v, ast.Name) and v.id == p and p not in assigned:
             continue  # same name on both sides
-        if _simple(v) and p not in assigned:
+        body_ = _strip_doc(list(h.node.body))
+        once = len(body_) == 1 and isinstance(body_[0], ast.Return) and sum(1 for x in ast.walk(h.node) if isinstance(x, ast.Name) and x.id == p and isinstance(x.ctx, ast.Load)) == 1 \
+            and len(bound) == 1
+        if (_simple(v) or once) and p not in assigned:
+            # (a one-expression helper that reads its only parameter exactly once: the argument expression is evaluated once, in place)
             subst[p] = v
         else:
             clash = p in caller_names and not (isinstance(v, ast.Name) and v.id == p)
@@ -333,10 +380,21 @@ def _bind(model, caller: FuncInfo, call: ast.Call, h: FuncInfo, targets=()):
             prologue.append(ast.copy_location(ast.Assign(targets=[ast.Name(id=new, ctx=ast.Store())], value=copy.deepcopy(v), lineno=call.lineno), call))
     hparams = set(bound)
     arg_names = {x.id for a_ in list(call.args) + [k.value for k in call.keywords] for x in ast.walk(a_) if isinstance(x, ast.Name)}
+    # names the helper binds only through `import x` / `from m import x` stay as they are: importing the same module
+    # under the same name twice is idempotent, and `jax.Array` must keep reading as `jax.Array`
+    import_bound = set()
+    for x in walk_scope(h.node):
+        if isinstance(x, (ast.Import, ast.ImportFrom)):
+            for al in x.names:
+                import_bound.add((al.asname or al.name).split(".")[0])
+    otherwise_bound = {y.id for y in walk_scope(h.node) if isinstance(y, ast.Name) and isinstance(y.ctx, (ast.Store, ast.Del))}
+    import_only = import_bound - otherwise_bound
     for loc in assigned:
         if loc in hparams:
             continue
         if loc in targets and loc not in arg_names:
+            continue
+        if loc in import_only:
             continue
         if loc in caller_names:
             renames[loc] = loc + tag
@@ -428,7 +486,7 @@ def _expand_stmt(model, caller: FuncInfo, st, inventory) -> Optional[list]:
         call, mode = st.value, "expr"
     if call is None:
         return None
-    t = model.resolve_call(caller, call)
+    t = _resolve_for_inline(model, caller, call)
     if t.kind != "func" or not _is_new(t.target, inventory) or t.target is caller or not _inlinable(model, t.target, caller):
         return None
     h = t.target
@@ -502,7 +560,7 @@ class _ExprInliner(ast.NodeTransformer):
 
     def visit_Call(self, n):
         self.generic_visit(n)
-        t = self.model.resolve_call(self.caller, n)
+        t = _resolve_for_inline(self.model, self.caller, n)
         if t.kind != "func" or not _is_new(t.target, self.inventory) or t.target is self.caller or not _inlinable(self.model, t.target, self.caller):
             return n
         h = t.target
@@ -602,7 +660,7 @@ def _hoist_statement_helper(model, caller, st, inventory):
     if slot is None:
         return None
     parent, fld, idx, call = slot
-    t = model.resolve_call(caller, call)
+    t = _resolve_for_inline(model, caller, call)
     if t.kind != "func" or not _is_new(t.target, inventory) or t.target is caller or not _inlinable(model, t.target, caller):
         return None
     h = t.target
@@ -1121,7 +1179,17 @@ def _new_tables(model, module_names: dict):
         for st in ast.walk(mod.tree):
             if isinstance(st, ast.Name) and isinstance(st.ctx, (ast.Store, ast.Del)):
                 count[st.id] = count.get(st.id, 0) + 1
-        for st in mod.tree.body:
+        def module_level(stmts):
+            """statements executed at import time: the module body and the blocks of its if / try / with statements"""
+            for st_ in stmts:
+                yield st_
+                if isinstance(st_, (ast.If, ast.Try, ast.With)):
+                    for fld in ("body", "orelse", "finalbody"):
+                        yield from module_level(getattr(st_, fld, []) or [])
+                    for hd in getattr(st_, "handlers", []) or []:
+                        yield from module_level(hd.body)
+
+        for st in module_level(mod.tree.body):
             if isinstance(st, ast.Assign) and len(st.targets) == 1 and isinstance(st.targets[0], ast.Name):
                 nm, v = st.targets[0].id, st.value
             elif isinstance(st, ast.AnnAssign) and isinstance(st.target, ast.Name) and st.value is not None:
@@ -2842,3 +2910,205 @@ def param_for_index(callee, call, i):
     ps = list(callee.params)
     off = 1 if (callee.cls is not None and isinstance(call.func, ast.Attribute) and ps and ps[0] in ("self", "cls", "mcs")) else 0
     return ps[i + off] if i + off < len(ps) else None
+
+
+def dissolve_attribute_records(model, module_names: dict) -> list:
+    """`Finder(mods, _Settings(Typechecker(tc), pf))` with `def __init__(self, mods, settings): self._settings = settings` and
+    `self._settings.typechecker` everywhere else -> `Finder(mods, Typechecker(tc), pf)`, `self._typechecker = typechecker; ...`,
+    `self._typechecker`.  A new record class whose instances are only built in constructor calls of package classes, kept by
+    those constructors in one attribute, read field by field through that attribute and handed on whole only to other
+    constructors that do the same, is replaced by its fields (attribute `_<field>`).  All-or-nothing per record class."""
+    recs = _new_records(model, module_names)
+    done = []
+    for key, fields in recs.items():
+        cname = key[1]
+        attr_of_field = {f_: "_" + f_.lstrip("_") for f_ in fields}
+
+        def is_ctor(scope, e):
+            if isinstance(e, ast.Call) and isinstance(e.func, ast.Name) and e.func.id == cname and not e.keywords and len(e.args) == len(fields) \
+                    and not any(isinstance(a, ast.Starred) for a in e.args):
+                b = model.resolve_name(scope, cname)
+                return b.kind == "class" and (b.target.module.short, b.target.name) == key
+            return False
+
+        def class_of_call(scope, call):
+            t = model.resolve_call(scope, call)
+            if t.kind == "class":
+                return t.target
+            # `cls(..)` inside a classmethod
+            if isinstance(call.func, ast.Name) and scope.cls is not None and scope.params and call.func.id == scope.params[0] and _decorator_kind(scope) == "class":
+                return scope.cls
+            return None
+
+        # holders: class -> (init param, attribute)
+        holders = {}
+        ok = True
+        sites = []  # (scope function, call, arg node or keyword node, holder class)
+        for f in model.functions.values():
+            if f.module.short.startswith("_typeguard"):
+                continue
+            for c in model.calls_in(f):
+                for a in list(c.args) + [k.value for k in c.keywords]:
+                    if is_ctor(f, a):
+                        K_ = class_of_call(f, c)
+                        if K_ is None:
+                            ok = False
+                            continue
+                        sites.append((f, c, a, K_))
+        if not ok or not sites:
+            continue
+
+        def holder_info(K, call, arg):
+            ini = model.lookup_method(K, "__init__")
+            if ini is None or ini.cls is not K:
+                return None
+            ps = list(ini.params)
+            if arg in call.args:
+                i = call.args.index(arg) + 1
+                if any(isinstance(z, ast.Starred) for z in call.args[:i]) or i >= len(ps) or ini.node.args.vararg and i > len(ini.node.args.posonlyargs + ini.node.args.args) - 1:
+                    return None
+                p_ = ps[i]
+            else:
+                kw = next((k for k in call.keywords if k.value is arg), None)
+                if kw is None or kw.arg not in ps:
+                    return None
+                p_ = kw.arg
+            # uses of the parameter in __init__: exactly one `self.A = p`
+            uses = [x for x in ast.walk(ini.node) if isinstance(x, ast.Name) and x.id == p_]
+            stores = [st for st in walk_scope(ini.node) if isinstance(st, ast.Assign) and len(st.targets) == 1 and isinstance(st.targets[0], ast.Attribute)
+                      and isinstance(st.targets[0].value, ast.Name) and st.targets[0].value.id == ps[0] and isinstance(st.value, ast.Name) and st.value.id == p_]
+            if len(uses) != 1 or len(stores) != 1:
+                return None
+            return ini, p_, stores[0].targets[0].attr, stores[0]
+
+        work = list(sites)
+        seen_calls = set()
+        while ok and work:
+            f, c, a, K = work.pop()
+            if id(c) in seen_calls:
+                continue
+            seen_calls.add(id(c))
+            hi = holder_info(K, c, a)
+            if hi is None:
+                ok = False
+                break
+            ini, p_, attr, st_ = hi
+            if K.qualname in holders and holders[K.qualname][1:3] != (p_, attr):
+                ok = False
+                break
+            holders[K.qualname] = (ini, p_, attr, st_)
+        if not ok:
+            continue
+        attrs = {h[2] for h in holders.values()}
+        # every `<x>.A` in the package: `.field` read, or handed whole to a holder constructor (which is then a holder too)
+        changed_again = True
+        whole_passes = []
+        pending_stores = []
+        while ok and changed_again:
+            changed_again = False
+            whole_passes = []
+            pending_stores = []
+            for mod in model.modules.values():
+                if mod.short.startswith("_typeguard"):
+                    continue
+                parents = {}
+                for p in ast.walk(mod.tree):
+                    for ch in ast.iter_child_nodes(p):
+                        parents[id(ch)] = p
+                for x in ast.walk(mod.tree):
+                    if isinstance(x, ast.Attribute) and x.attr in attrs:
+                        par = parents.get(id(x))
+                        if isinstance(x.ctx, ast.Store):
+                            pending_stores.append(x)  # judged once all holders are known
+                            continue
+                        if isinstance(par, ast.Attribute) and par.value is x and par.attr in fields and isinstance(par.ctx, ast.Load):
+                            continue
+                        if isinstance(par, (ast.Call, ast.keyword)):
+                            call = par if isinstance(par, ast.Call) else parents.get(id(par))
+                            scope = None
+                            for f in model.functions.values():
+                                if f.module is mod and any(y is call for y in ast.walk(f.node)):
+                                    if scope is None or any(y is f.node for y in ast.walk(scope.node)):
+                                        scope = f
+                            if scope is not None and isinstance(call, ast.Call):
+                                K_ = class_of_call(scope, call)
+                                if K_ is not None:
+                                    hi = holder_info(K_, call, x)
+                                    if hi is not None:
+                                        if K_.qualname not in holders:
+                                            holders[K_.qualname] = hi
+                                            attrs.add(hi[2])
+                                            changed_again = True
+                                        whole_passes.append((scope, call, x, K_))
+                                        continue
+                        ok = False
+        if ok and any(not any(x is h[3].targets[0] for h in holders.values()) for x in pending_stores):
+            ok = False
+        if not ok:
+            continue
+        # the new attribute names must be free in every holder class
+        for q, (ini, p_, attr, st_) in holders.items():
+            K = model.classes[q]
+            used = {y.attr for meth in K.methods.values() for y in ast.walk(meth.node) if isinstance(y, ast.Attribute)}
+            if any(attr_of_field[f_] in used for f_ in fields):
+                ok = False
+        if not ok:
+            continue
+        # ---- rewrite
+        for q, (ini, p_, attr, st_) in holders.items():
+            a_ = ini.node.args
+            for lst in (a_.posonlyargs, a_.args, a_.kwonlyargs):
+                for i, ar in enumerate(list(lst)):
+                    if ar.arg == p_:
+                        lst[i:i + 1] = [ast.arg(arg=f_.lstrip("_"), annotation=None) for f_ in fields]
+                        if lst is a_.kwonlyargs:
+                            a_.kw_defaults[i:i + 1] = [None] * len(fields)
+            new_stores = [ast.copy_location(ast.Assign(targets=[ast.Attribute(value=ast.Name(id=ini.params[0], ctx=ast.Load()), attr=attr_of_field[f_], ctx=ast.Store())],
+                                                       value=ast.Name(id=f_.lstrip("_"), ctx=ast.Load()), lineno=st_.lineno), st_) for f_ in fields]
+
+            def repl(stmts):
+                for i, s_ in enumerate(list(stmts)):
+                    if s_ is st_:
+                        stmts[i:i + 1] = new_stores
+                        return True
+                    for fld in ("body", "orelse", "finalbody"):
+                        sub = getattr(s_, fld, None)
+                        if isinstance(sub, list) and sub and isinstance(sub[0], ast.stmt) and repl(sub):
+                            return True
+                    for hd in getattr(s_, "handlers", []) or []:
+                        if repl(hd.body):
+                            return True
+                return False
+
+            repl(ini.node.body)
+        for f, c, a, K in sites:
+            vals = list(a.args)
+            if a in c.args:
+                i = c.args.index(a)
+                c.args[i:i + 1] = vals
+            else:
+                j = next(j for j, k in enumerate(c.keywords) if k.value is a)
+                c.keywords[j:j + 1] = [ast.keyword(arg=f_.lstrip("_"), value=v) for f_, v in zip(fields, vals)]
+        for scope, c, x, K in whole_passes:
+            vals = [ast.Attribute(value=copy.deepcopy(x.value), attr=attr_of_field[f_], ctx=ast.Load()) for f_ in fields]
+            if x in c.args:
+                i = c.args.index(x)
+                c.args[i:i + 1] = vals
+            else:
+                j = next(j for j, k in enumerate(c.keywords) if k.value is x)
+                c.keywords[j:j + 1] = [ast.keyword(arg=f_.lstrip("_"), value=v) for f_, v in zip(fields, vals)]
+
+        class Tr(ast.NodeTransformer):
+            def visit_Attribute(self, n):
+                self.generic_visit(n)
+                if isinstance(n.value, ast.Attribute) and n.value.attr in attrs and n.attr in fields and isinstance(n.ctx, ast.Load):
+                    return ast.copy_location(ast.Attribute(value=n.value.value, attr=attr_of_field[n.attr], ctx=ast.Load()), n)
+                return n
+
+        for mod in model.modules.values():
+            if mod.short.startswith("_typeguard"):
+                continue
+            Tr().visit(mod.tree)
+            ast.fix_missing_locations(mod.tree)
+        done.append(".".join(key))
+    return done
